@@ -19,7 +19,7 @@
     Never imported by [Model/]. *)
 From Coq Require Import List Ascii String ZArith NArith Bool Lia Arith Permutation.
 From Shexer Require Import Lib.PyStr Lib.Dict Gen.Consts Spec.Rdf Model.Tracker Model.Profiler
-     Model.Freq Model.Shexing Model.Run Model.Channels Spec.ChannelSpec Proofs.ChannelProofs.
+     Model.Freq Model.Shexing Model.Run Model.RunCur Model.Channels Spec.ChannelSpec Proofs.ChannelProofs.
 From Shexer Require Model.NtReader Spec.NtSyntax Spec.NtDom Proofs.NtProofs.
 From Shexer Require Model.TtlReader Spec.TtlSyntax Spec.TtlDomain Proofs.TtlProofs Proofs.TtlCompose.
 Import ListNotations.
@@ -303,6 +303,13 @@ Section EraseRun.
   (** [run_shapes] -- hence [run_shexc], the whole ShExC text -- is the same
       for two graphs that differ in the lexical forms of their literals only *)
   Theorem run_shapes_erase_lex c thr g : run_shapes fa c thr (map erase_lex g) = run_shapes fa c thr g.
+  Proof.
+    unfold run_shapes. destruct (full_ns c) as [ns|]; [|reflexivity]. rewrite track_erase_lex.
+    destruct (track _ _ _ g) as [ins|e]; [|reflexivity]. rewrite profile_erase_lex. reflexivity.
+  Qed.
+
+  (** the same with the shexing stage in the order the code has *)
+  Theorem run_shapes_cur_erase_lex c thr g : run_shapes_cur fa c thr (map erase_lex g) = run_shapes_cur fa c thr g.
   Proof. exact (run_shapes2_erase_lex c thr g g). Qed.
 
   Corollary run_shapes_lex_congruence c thr g g' :
@@ -440,7 +447,7 @@ Section NtText.
   Theorem nt_text_to_graph c thr (o1 o2 : porc) ts :
     Forall nt_ok_case ts ->
     run_over_passes fa c thr (passes1 o1 o2 (Str "nt") None (SRaw (NtSyntax.nt_doc ts)))
-    = Some (run_shapes fa c thr (nt_graph ts)).
+    = Some (run_shapes_cur fa c thr (nt_graph ts)).
   Proof.
     intros H.
     destruct (nt_raw_stream pyfloat read_ttl gunzip unxz unzip rdf_parse allow o1 ts H) as (ms & G & H1 & HG & HE).
@@ -448,7 +455,7 @@ Section NtText.
     assert (ms2 = ms) as ->.
     { rewrite !nt_chan_raw in *. rewrite H1 in H2. injection H2 as ->. reflexivity. }
     unfold run_over_passes, graphs_of_passes, passes. cbn [fst snd]. rewrite H1, H2, HG.
-    rewrite run_shapes2_same. f_equal. rewrite <- HE. symmetry. apply run_shapes_erase_lex.
+    rewrite run_shapes2_same. f_equal. rewrite <- HE. symmetry. apply run_shapes_cur_erase_lex.
   Qed.
 
   (** the lines of the document, whatever the terminator convention *)
@@ -478,20 +485,20 @@ Section NtText.
     (forall cm lss stored,
         List.concat lss = nt_lines ts -> cm_plain cm ->
         Forall2 (stored_as gunzip unxz cm) (map render_lines lss) stored ->
-        run_over_passes fa c thr (passes1 o1 o2 (Str "nt") cm (SFiles stored)) = Some (run_shapes fa c thr (nt_graph ts))) /\
+        run_over_passes fa c thr (passes1 o1 o2 (Str "nt") cm (SFiles stored)) = Some (run_shapes_cur fa c thr (nt_graph ts))) /\
     (forall cm st,
         cm_plain cm -> stored_as gunzip unxz cm (render_lines (nt_lines ts)) st ->
-        run_over_passes fa c thr (passes1 o1 o2 (Str "nt") cm (SFile st)) = Some (run_shapes fa c thr (nt_graph ts))) /\
+        run_over_passes fa c thr (passes1 o1 o2 (Str "nt") cm (SFile st)) = Some (run_shapes_cur fa c thr (nt_graph ts))) /\
     (forall archive lss,
         List.concat lss = nt_lines ts -> archive_holds unzip archive lss ->
-        run_over_passes fa c thr (passes1 o1 o2 (Str "nt") (Some c_ZIP) (SFile archive)) = Some (run_shapes fa c thr (nt_graph ts))) /\
+        run_over_passes fa c thr (passes1 o1 o2 (Str "nt") (Some c_ZIP) (SFile archive)) = Some (run_shapes_cur fa c thr (nt_graph ts))) /\
     (forall archives lsss,
         List.concat (List.concat lsss) = nt_lines ts -> Forall2 (archive_holds unzip) archives lsss ->
-        run_over_passes fa c thr (passes1 o1 o2 (Str "nt") (Some c_ZIP) (SFiles archives)) = Some (run_shapes fa c thr (nt_graph ts))).
+        run_over_passes fa c thr (passes1 o1 o2 (Str "nt") (Some c_ZIP) (SFiles archives)) = Some (run_shapes_cur fa c thr (nt_graph ts))).
   Proof.
     intros H Hok.
     assert (Hraw : run_over_passes fa c thr (passes1 o1 o2 (Str "nt") None (SRaw (render_lines (nt_lines ts))))
-                   = Some (run_shapes fa c thr (nt_graph ts))).
+                   = Some (run_shapes_cur fa c thr (nt_graph ts))).
     { rewrite <- (nt_text_to_graph c thr o1 o2 ts H). unfold passes.
       rewrite (nt_raw_lines_same o1 o1 ts H Hok), (nt_raw_lines_same o2 o2 ts H Hok). reflexivity. }
     destruct (channel_independent_nt pyfloat allow read_ttl gunzip unxz unzip rdf_parse fa c thr o1 o2 o1 o2)
@@ -512,7 +519,7 @@ Section NtText.
   Theorem tsv_text_to_graph read_nt c thr (o1 o2 : porc) g :
     tsv_dom g = true -> Forall line_ok (map tsv_line_of g) ->
     run_over_passes fa c thr (passes pyfloat read_nt read_ttl gunzip unxz unzip rdf_parse o1 o2 (Str "tsv_spo") None (SRaw (tsv_doc g)))
-    = Some (run_shapes fa c thr (kinded g)).
+    = Some (run_shapes_cur fa c thr (kinded g)).
   Proof.
     intros Hd Hok.
     destruct (tsv_channel_kinded pyfloat read_nt read_ttl gunzip unxz unzip rdf_parse o1 g Hd Hok) as [H1 HG].
@@ -524,7 +531,7 @@ Section NtText.
     tsv_dom g = true -> Forall line_ok (map tsv_line_of g) -> cm_plain cm ->
     stored_as gunzip unxz cm (tsv_doc g) st ->
     run_over_passes fa c thr (passes pyfloat read_nt read_ttl gunzip unxz unzip rdf_parse o1 o2 (Str "tsv_spo") cm (SFile st))
-    = Some (run_shapes fa c thr (kinded g)).
+    = Some (run_shapes_cur fa c thr (kinded g)).
   Proof.
     intros Hd Hok Hcm Hst. rewrite <- (tsv_text_to_graph read_nt c thr o1 o2 g Hd Hok).
     apply run_over_passes_streams; unfold passes; cbn [fst snd];
@@ -693,7 +700,7 @@ Section TtlChannels.
   Theorem turtle_iter_text_to_graph c thr (o1 o2 : porc) ls d ts :
     TtlSyntax.lays_out ls d -> TtlDomain.C07_dom ls d = true -> TtlSyntax.sem d = Some ts ->
     run_over_passes fa c thr (passes1 o1 o2 TTL None (SRaw (TtlSyntax.render_doc ls)))
-    = Some (run_shapes fa c thr ts).
+    = Some (run_shapes_cur fa c thr ts).
   Proof.
     intros Hl Hd Hs.
     destruct (ttl_raw_stream o1 ls d ts Hl Hd Hs) as (t1 & H1 & E1).
@@ -725,7 +732,7 @@ Section TtlChannels.
     TtlSyntax.lays_out ls d -> TtlDomain.C07_dom ls d = true -> TtlSyntax.sem d = Some ts ->
     cm_plain cm -> Forall line_ok (ttl_text_lines ls) ->
     stored_as gunzip unxz cm (render_lines (ttl_text_lines ls)) st ->
-    run_over_passes fa c thr (passes1 o1 o2 TTL cm (SFile st)) = Some (run_shapes fa c thr ts).
+    run_over_passes fa c thr (passes1 o1 o2 TTL cm (SFile st)) = Some (run_shapes_cur fa c thr ts).
   Proof.
     intros Hl Hd Hs Hcm Hok Hst. rewrite <- (turtle_iter_text_to_graph c thr o1 o2 ls d ts Hl Hd Hs).
     unfold passes.
@@ -781,7 +788,7 @@ End TtlFiles.
 (** ** E. N-Triples against Turtle, both readers plugged in *)
 
 From Shexer Require Import Model.SerialShexc Proofs.ShexKeys Proofs.EndToEnd Proofs.EndToEnd2 Proofs.EndToEnd3
-     Model.FreqInst Proofs.Bin64Round.
+     Model.FreqInst Proofs.Bin64Round Proofs.OrderIrrelevant.
 
 Section CrossFormat.
   Variable pyfloat : str -> option bool.
@@ -812,7 +819,7 @@ Section CrossFormat.
     intros Hnt Hl Hd Hs HE. unfold nt_run, ttl_run, closed_passes.
     rewrite (nt_text_to_graph pyfloat allow ttl_reader gunzip unxz unzip rdf_parse fa c thr o1 o2 ts Hnt).
     rewrite (turtle_iter_text_to_graph pyfloat (nt_reader allow) gunzip unxz unzip rdf_parse fa c thr o1' o2' ls d G Hl Hd Hs).
-    f_equal. rewrite <- HE. apply run_shapes_erase_lex.
+    f_equal. rewrite <- HE. apply run_shapes_cur_erase_lex.
   Qed.
 
   (** same triples in a different order: with C09 (no instance cap, empty
@@ -836,9 +843,11 @@ Section CrossFormat.
     destruct (e2e_keys_perm_valid fa c thr _ _ Hcap Hre HP Hv) as (ns & shapes & shapes' & R1 & R2 & A & B).
     exists ns, shapes, shapes'. split; [|split; [|split; [exact A | exact B]]].
     - unfold nt_run, closed_passes.
-      rewrite (nt_text_to_graph pyfloat allow ttl_reader gunzip unxz unzip rdf_parse fa c thr o1 o2 ts Hnt), R1. reflexivity.
+      rewrite (nt_text_to_graph pyfloat allow ttl_reader gunzip unxz unzip rdf_parse fa c thr o1 o2 ts Hnt).
+      rewrite (run_shapes_cur_eq_keep fa c thr _ Hre), R1. reflexivity.
     - unfold ttl_run, closed_passes.
       rewrite (turtle_iter_text_to_graph pyfloat (nt_reader allow) gunzip unxz unzip rdf_parse fa c thr o1' o2' ls d G Hl Hd Hs).
+      rewrite (run_shapes_cur_eq_keep fa c thr _ Hre).
       rewrite <- (run_shapes_erase_lex fa c thr G), R2. reflexivity.
   Qed.
 
@@ -861,12 +870,21 @@ Section CrossFormat.
   Proof.
     intros Hnt Hl Hd Hs HP Hcap Hv Hw Hle Hn.
     assert (Hn' : (N.of_nat (List.length (nt_graph ts)) < 2 ^ 53)%N) by (unfold nt_graph; rewrite map_length; exact Hn).
+    assert (Hc1 : class_iris_ok c (nt_graph ts) = true).
+    { unfold valid_input_le1 in Hv. apply andb_true_iff in Hv. apply Hv. }
+    assert (Hc2 : class_iris_ok c (map erase_lex G) = true).
+    { pose proof (valid_input_le1_perm c _ _ HP) as E. rewrite Hv in E. unfold valid_input_le1 in E.
+      apply andb_true_iff in E. apply E. }
+    assert (Hn2 : (N.of_nat (List.length (map erase_lex G)) < 2 ^ 53)%N).
+    { rewrite <- (Permutation_length HP). exact Hn'. }
     destruct (e2e_keys_perm_valid_any c thr _ _ Hcap HP Hv Hw Hle Hn') as (ns & shapes & shapes' & R1 & R2 & A & B).
     exists ns, shapes, shapes'. split; [|split; [|split; [exact A | exact B]]].
     - unfold nt_run, closed_passes.
-      rewrite (nt_text_to_graph pyfloat allow ttl_reader gunzip unxz unzip rdf_parse BAlg c thr o1 o2 ts Hnt), R1. reflexivity.
+      rewrite (nt_text_to_graph pyfloat allow ttl_reader gunzip unxz unzip rdf_parse BAlg c thr o1 o2 ts Hnt).
+      rewrite (run_shapes_cur_eq_valid c thr _ Hc1 Hw Hle Hn'), R1. reflexivity.
     - unfold ttl_run, closed_passes.
       rewrite (turtle_iter_text_to_graph pyfloat (nt_reader allow) gunzip unxz unzip rdf_parse BAlg c thr o1' o2' ls d G Hl Hd Hs).
-      rewrite <- (run_shapes_erase_lex BAlg c thr G), R2. reflexivity.
+      rewrite <- (run_shapes_cur_erase_lex BAlg c thr G).
+      rewrite (run_shapes_cur_eq_valid c thr _ Hc2 Hw Hle Hn2), R2. reflexivity.
   Qed.
 End CrossFormat.
